@@ -28,6 +28,11 @@ impl Scheduler for SimScheduler {
         let mut runnable = [0usize; MAX_TASKS];
         let mut n = 0;
         for t in runnable_tasks {
+            // shuttle also offers tasks that are blocked in `park()` ("may wake up spuriously"): a parked driver is parked
+            // until its waker is invoked -- spurious polls are a separate, counted fault of the harness
+            if !t.runnable() {
+                continue;
+            }
             let idx = usize::from(t.id());
             assert!(idx < MAX_TASKS, "too many simulated tasks");
             runnable[n] = idx;
